@@ -159,6 +159,27 @@ def _fft_Q(rng, m, n):
     return Q
 
 
+def _fft_family(rng, hi):
+    """Inputs that zero-pad to one common shape: [(m, n, Q), ...]."""
+    for _ in range(50):
+        Py = rng.randint(2, 2 * hi)
+        Px = Py if rng.random() < 0.6 else rng.randint(2, 2 * hi)
+        fam = []
+        for m in range(1, min(Py, hi) + 1):
+            if (Px * m) % Py:
+                continue
+            n = Px * m // Py
+            if n < 1 or n > hi:
+                continue
+            Q = Py / m
+            if math.ceil(m * Q) == Py and math.ceil(n * Q) == Px:
+                fam.append((m, n, int(Q) if float(Q).is_integer() and rng.random() < 0.5 else Q))
+        if len(fam) >= 2:
+            rng.shuffle(fam)
+            return fam[:rng.randint(2, min(4, len(fam)))]
+    return []
+
+
 def generate(rng, tier):
     hi = 12 if tier == "quick" else rng.choice([8, 12, 16, 24, 32])
     cfg = {
@@ -198,6 +219,7 @@ def generate(rng, tier):
 
     ops = []
     nsteps = rng.randint(3, 25 if tier == "quick" else 40)
+    fft_family = _fft_family(rng, hi) if (enabled["fft"] and rng.random() < 0.6) else []
     weights = []
     if enabled["mdft"]:
         weights += [("dft2", 5), ("idft2", 4)]
@@ -253,9 +275,13 @@ def generate(rng, tier):
                   "shift": [sh[0] * odx, sh[1] * odx],
                   "method": rng.choice(["mdft", "czt"]), "wf": rng.random() < 0.5}
         elif kind in ("focus", "unfocus"):
-            g = rng.choice(pool)
-            m, n = g["in"]
-            op = {"op": kind, "arr": arr_for([m, n]), "Q": _fft_Q(rng, m, n), "wf": rng.random() < 0.4,
+            if fft_family and rng.random() < 0.8:
+                m, n, fq = rng.choice(fft_family)
+            else:
+                g = rng.choice(pool)
+                m, n = g["in"]
+                fq = _fft_Q(rng, m, n)
+            op = {"op": kind, "arr": arr_for([m, n]), "Q": fq, "wf": rng.random() < 0.4,
                   "efl": rng.uniform(10, 500), "wvl": rng.uniform(0.4, 1.6), "dx": rng.uniform(0.01, 2.0)}
         elif kind == "clear":
             op = {"op": "clear", "which": rng.choice(["mdft", "czt", "both"])}
